@@ -148,6 +148,8 @@ class World2:
         self.expect_unchanged = False
 
     def v(self, prop, tag, pattern, detail=None, also=()):
+        if getattr(self, "fault_prop", None) == prop and prop == "C16" and self.cls in CHANNELLED:
+            also = tuple(also) + ("C15",)
         self.viol.append({"prop": prop, "also": list(also), "tag": tag, "pattern": pattern,
                           "step": self.step, "op": self.op.get("op") if self.op else None,
                           "detail": detail})
@@ -250,7 +252,7 @@ class World2:
         for k, a in self.actors.items():
             if a.obj is None:
                 continue
-            prop_iso = "C20" if k != moved else None
+            prop_iso = "C20" if k != moved else getattr(self, "fault_prop", None)
             kind, res = self.call(self.observe, a)
             if kind == "exc":
                 self.v(prop_iso or self.primary(a), "I-obj", "observation-raised",
@@ -325,6 +327,7 @@ class World2:
             self.step, self.op = i, op
             self.stats["ops"] += 1
             self.expect_unchanged = False
+            self.fault_prop = None
             fn = getattr(self, "op_" + op["op"], None)
             if fn is None:
                 raise HarnessError(f"unknown op {op['op']}")
@@ -548,6 +551,7 @@ class World2:
                 return self.skip()
         self.stats["fault_bad_item"] += 1
         self.expect_unchanged = True
+        self.fault_prop = "C16"  # whatever goes wrong now is the refused add's doing
         kind, val = self.call(self.adder(a), it, None)
         self.note("add_bad", kindname, kind)
         if kind != "exc":
